@@ -435,6 +435,25 @@ class NonCanonicalBlocks(Family):
         else:
             count = b'\xfd' + bytes([n, 0])
         enc = W.encode_header(_hdr(root)) + count + b''.join(parts)
+        if kind != 'long_tx_count':
+            # the transactions parsed one by one from their (non-canonical) encodings and handed to the constructor and the
+            # tree builders
+            from bitcoin.core import CTransaction
+            try:
+                parsed = [CTransaction.deserialize(p) for p in parts]
+            except Exception:  # noqa
+                parsed = None
+            if parsed is not None:
+                wl0 = [b'\x00' * 32] + [W.wtxid(m) for m in models[1:]]
+                b2 = CBlock(nVersion=4, hashPrevBlock=b'\x11' * 32, nTime=1, nBits=0x207fffff, nNonce=0, vtx=parsed)
+                if b2.hashMerkleRoot != root or list(b2.vMerkleTree) != W.merkle_tree(txids):
+                    raise Viol('block built from transactions parsed one by one from %s encodings: merkle root' % kind, root.hex(), bytes(b2.hashMerkleRoot).hex())
+                if any(W.has_witness(m) for m in models):
+                    if list(CBlock.build_witness_merkle_tree_from_txs(parsed)) != W.merkle_tree(wl0) or list(b2.vWitnessMerkleTree) != W.merkle_tree(wl0) or b2.calc_witness_merkle_root() != W.merkle_root(wl0):
+                        raise Viol('block built from transactions parsed one by one from %s encodings: witness merkle tree / root are not those of the transactions\' fields' % kind, W.merkle_root(wl0).hex(), bytes(b2.calc_witness_merkle_root()).hex())
+                for t, m in zip(parsed, models):
+                    if t.calc_weight() != 3 * len(W.encode_tx(m, witness=False)) + len(W.encode_tx(m)):
+                        raise Viol('weight of a transaction parsed from a %s encoding' % kind, None, t.calc_weight())
         try:
             blk = CBlock.deserialize(enc)
         except Exception:  # noqa
